@@ -1,5 +1,23 @@
 SP='spanner_prober/prober/proberlib.go'; SI='spanner_prober/prober/interceptors.go'; SM='spanner_prober/main.go'; E2E='e2e-checksum/main.go'; G='grpcgcp/gcp_multiendpoint.go'; I='grpcgcp/gcp_interceptor.go'; B='grpcgcp/gcp_balancer.go'; P='grpcgcp/gcp_picker.go'; M='grpcgcp/multiendpoint/multiendpoint.go'
 MUT={
+ 'c13-outdated-check-before-lock': [(M,'''		me.Lock()
+		defer me.Unlock()
+		if e.lastChange != stateChange {
+			// This timer is outdated.
+			return
+		}
+		setState(e, unavailable)''','''		if e.lastChange != stateChange {
+			// This timer is outdated.
+			return
+		}
+		me.Lock()
+		defer me.Unlock()
+		setState(e, unavailable)''')],
+ 'c10-rr-list-unlocked': [(B,'''	gb.mu.RLock()
+	scRef := gb.scRefList[atomic.AddUint32(&gb.rrRefId, 1)%uint32(len(gb.scRefList))]
+''','''	scRef := gb.scRefList[atomic.AddUint32(&gb.rrRefId, 1)%uint32(len(gb.scRefList))]
+	gb.mu.RLock()
+''')],
  'c01-bind-window': [(P,'''					p.gb.bindSubConnRef(bk, scRef)''','''					p.gb.bindSubConn(bk, p.gb.getSubConn(scRef))''')],
  'c01-bind-overwrite': [(B,'''	if !ok {
 		gb.affinityMap[bindKey] = sc
